@@ -99,6 +99,17 @@ def handle1 (op : String) (args : List Sexp) : Option String := do
           let rs ← rs.mapM cellsOf
           pure ("ok " ++ (natList (sortIdx (rs.map (byvalKey os)))).render)
       | _, _ => Option.none
+  | "byvalidx", [orders, rows, names] =>
+      -- the same with the key columns NAMED by the runner (`self`, `by`, `byval`, `key`, ...: `d.sort(self = [3, 1])`); the names
+      -- (distinct strings, one per order) do not enter the order of the rows
+      match ← Val.ofSexp orders, ← Val.ofSexp rows, ← Val.ofSexp names with
+      | .list os, .list rs, .list ns =>
+          let ns ← ns.mapM fun x => match x with | .cell (.str s) => some s | _ => Option.none
+          if ns.length != os.length || ns.eraseDups.length != ns.length || ns.contains "i" then Option.none else
+          let os ← os.mapM cellsOf
+          let rs ← rs.mapM cellsOf
+          pure ("ok " ++ (natList (sortIdx (rs.map (byvalKey os)))).render)
+      | _, _, _ => Option.none
   | _, _ => Option.none
 
 /-- a scalar WITH its spelling (op `sortcode`; read before `normSexp` flattens the spellings): `NI:` / `NI.<t>:` / `NF:<q>` / `NF.<t>:` /
